@@ -138,7 +138,7 @@ Theorem c07_retry_fires :
   (forall s d t x, nth_error (timers s) t = Some x -> tst x = TArmed -> (tdead x <= clock s + d)%N ->
      exists x', nth_error (timers (advance s d)) t = Some x' /\ tst x' = TFired /\ trec x' = trec x /\ tkind x' = tkind x) /\
   (forall s t x, nth_error (timers s) t = Some x -> tst x = TFired -> tkind x = false ->
-     kctx s <> 0 -> in_map s (trec x) = true -> rexited (getr s (trec x)) = true ->
+     kctx s <> 0 -> in_map s (trec x) = true -> rexited (getr s (trec x)) = true -> rnil (getr s (trec x)) = false ->
      ninst (timer_cb repaired s t) = S (ninst s)).
 Proof. split; [exact advance_fires | exact retry_cb_restarts]. Qed.
 Print Assumptions c07_retry_fires.
@@ -149,6 +149,8 @@ Theorem c07_pinned_d8_refuted : cnt (in_user_lin 0) (insts (run pinned_d8 (init 
 Proof. exact d8_refuted. Qed.
 Theorem c07_pinned_d8b_refuted : cnt (in_user_lin 0) (insts (run pinned_d8b (init 0 None) d8b_witness)) = 2.
 Proof. exact d8b_refuted. Qed.
+Theorem c07_pinned_d22_refuted : cnt (in_user_lin 0) (insts (run pinned_d22 (init 0 None) d22_witness)) = 2.
+Proof. exact d22_refuted. Qed.
 Theorem c07_pinned_d7_refuted :
   let s := run pinned_d7 (init 0 (Some [100; 200]%N)) d7_witness in
   present s 0 = true /\ kctx s = 1 /\ ninst s = 1 /\ failed (getr s 0) = true /\ rretry (getr s 0) = None /\
@@ -163,6 +165,16 @@ Proof. vm_compute. repeat split; reflexivity. Qed.
 Example c07_example_reset_without_context_waits :
   let s := run repaired (init 0 None) d8b_witness in
   cnt (in_user_lin 0) (insts s) = 1 /\ ipcv (geti s 1) = IWait /\ iwait (geti s 1) = Some 0.
+Proof. vm_compute. repeat split; reflexivity. Qed.
+(* a record without a routine keeps the exit channel of the instance ResetRoutine cancelled: the instance of the next
+   record waits for it; the record itself is never started, RestartRoutine leaves it alone, it occupies its key *)
+Example c07_example_reset_nil_routine_keeps_chain :
+  let s := run repaired (init 0 None) d22_witness in
+  cnt (in_user_lin 0) (insts s) = 1 /\ length (insts s) = 2 /\ ipcv (geti s 1) = IWait /\ iwait (geti s 1) = Some 0 /\
+  let s1 := run repaired (init 0 None) [ESetCtx 1 false; ESetKey 0 true; EProceed 0 true; ESetNil 1; EReset 0 0] in
+  rnil (getr s1 1) = true /\ rexit (getr s1 1) = Some 0 /\ present s1 0 = true /\ get_key s1 0 = (2%N, true) /\
+  length (insts (fst (restart_routine s1 0 0))) = 1 /\ snd (restart_routine s1 0 0) = (true, true) /\
+  length (insts (run repaired s1 [ESetKey 0 true; ESetCtx 2 true; ESetNil 2; ESetKey 1 true; ESetKey 2 true])) = 2.
 Proof. vm_compute. repeat split; reflexivity. Qed.
 Example c07_example_retry_survives_setkey :
   let s := run repaired (init 0 (Some [100; 200]%N)) (d7_witness ++ [ETimerCb 0; EProceed 1 true]) in
